@@ -102,7 +102,7 @@ Proof.
   apply signed_close; [apply rhe_close|reflexivity].
 Qed.
 
-(* the reference value of a Float / Rational atom: the exact value when the rounded value is integral (the printer
+(* the reference value of a Float atom: the exact value when the rounded value is integral (the printer
    rounds float(x) itself), otherwise the decimal text that format() rounds (str(Float): 15 significant digits) *)
 Definition href (d : nat) (v tv : Q) : Q :=
   if Z.eqb (Z.modulo (py_round_scaled d v) (pow10 d)) 0 then v else tv.
@@ -122,6 +122,13 @@ Proof.
     { unfold scaled. rewrite inject_Z_opp. field. unfold Qeq. simpl. lia. }
     rewrite E2. exact S.
   - apply fmt_decimal_close.
+Qed.
+
+(* a Rational atom is printed from its exact value (D21o) *)
+Lemma rat_atom_close d v : Qabs (v - pnum_value (number_atom d v v)) <= tol_of d.
+Proof.
+  pose proof (number_atom_close d v v) as H. unfold href in H.
+  destruct (Z.eqb (Z.modulo (py_round_scaled d v) (pow10 d)) 0); exact H.
 Qed.
 
 Lemma pnum_zero_value x : pnum_is_zero x = true -> pnum_value x == 0.
@@ -204,7 +211,7 @@ Fixpoint hint_of (d : nat) (flag : bool) (m : list (string * string)) (t : stree
   | SPow b (SInt z) => hint_pow (hint_of d flag m b) z
   | SPow _ _ => ENum 0
   | SFloat v => ENum (href d v (sig15 v))
-  | SRat p q => ENum (href d (p # q) (sig15 (p # q)))
+  | SRat p q => ENum (p # q)
   | SInt z => ENum (inject_Z z)
   | SSym s => match lookup_sym m s with Some t => EVar t | None => ENum 0 end
   | SOther _ => ENum 0
@@ -432,8 +439,8 @@ Proof.
     rewrite pnum_value_pint. assert (E0 : inject_Z z - inject_Z z == 0) by ring. rewrite E0. exact T.
   - (* Rational *)
     cbn [conv extract_atom] in H. cbn [hint_of].
-    pose proof (J_atom d flag _ _ (number_atom_close d (p # q) (sig15 (p # q)))) as A.
-    destruct (flag && pnum_is_zero (number_atom d (p # q) (sig15 (p # q)))); injection H as <-; exact A.
+    pose proof (J_atom d flag _ _ (rat_atom_close d (p # q))) as A.
+    destruct (flag && pnum_is_zero (number_atom d (p # q) (p # q))); injection H as <-; exact A.
   - (* Symbol *)
     cbn [conv extract_atom] in H. cbn [hint_of]. destruct (lookup_sym m s) as [t|]; [|discriminate].
     injection H as <-. exists (EVar t). split; [reflexivity|constructor].
@@ -443,8 +450,8 @@ Qed.
 (* ------------------------------------------------------------------ the exact expression has the value of the tree *)
 Fixpoint qpow (x : Q) (n : nat) : Q := match n with O => 1 | S k => qpow x k * x end.
 
-(* the value of a sympy tree: sums, products, integer powers; a Float / Rational atom has its reference value
-   [href] (see there), a symbol the value of the function text it stands for *)
+(* the value of a sympy tree: sums, products, integer powers; a Rational atom has its exact value, a Float atom its
+   reference value [href] (see there), a symbol the value of the function text it stands for *)
 Fixpoint seval (d : nat) (m : list (string * string)) (rho : valuation) (t : stree) : Q :=
   match t with
   | SAdd args => fold_right (fun a acc => seval d m rho a + acc) 0 args
@@ -452,7 +459,7 @@ Fixpoint seval (d : nat) (m : list (string * string)) (rho : valuation) (t : str
   | SPow b (SInt z) => let p := qpow (seval d m rho b) (Z.to_nat (Z.abs z)) in if Z.ltb 0 z then p else 1 / p
   | SPow _ _ => 0
   | SFloat v => href d v (sig15 v)
-  | SRat p q => href d (p # q) (sig15 (p # q))
+  | SRat p q => p # q
   | SInt z => inject_Z z
   | SSym s => match lookup_sym m s with Some t => rho t | None => 0 end
   | SOther _ => 0
